@@ -4,4 +4,5 @@ let table : (string * (z list -> z list)) list = [
   "c20", c20_entry;
   "c12", c12_entry;
   "c12_lin", c12_lin_entry;
+  "m1c", m1c_entry;
 ]
